@@ -211,6 +211,38 @@ CLAIMED = {
              "contains); harness/src/wrap.rs; HashSet-order effects canonicalised (DESIGN.md Corrections).",
         technique="Translator-generated routing tables + Coq proof (parametric transparency) + direct-vs-wrapped transcripts",
         ref="§7 C13"),
+
+    "C02": dict(
+        text="Coq theorem (Memfs/Posix.v): over the same tree, component-wise POSIX resolution (which follows every link it meets before "
+             "the last component, with fuel against cycles) coincides with Memfs' lexical lookup exactly when no proper ancestor of the "
+             "argument is a link: the property's domain restriction is what makes agreement possible at all, and one intermediate link "
+             "refutes it outside. The agreement of the two implementations themselves cannot be a theorem about this code base (the real "
+             "filesystem is the kernel); it is decided by running Memfs and Stdfs side by side in one process on the same histories (every "
+             "BFS history of a bounded namespace over the full call alphabet incl. traversals, copy, chmod, move, links, ~ / $VAR / unclean "
+             "spellings, plus random histories), cutting a history before the first call whose pre-state or arguments leave the domain "
+             "(evaluated on the Memfs state through the snapshot hook), and comparing success / failure, returned values and the tree an "
+             "independent std::fs observer reads back. 27 divergences found this way were repaired in /repo (known_findings.json).",
+        note="Trusted: Coq kernel; harness/src/stdhist.rs (sandbox re-rooting, observer, domain predicate); checks run as root, so the real "
+             "filesystem enforces no permissions; owner queries, chown and error kinds are not compared; the working directory is compared "
+             "through cwd() results, not as part of the tree; HashSet / readdir order canonicalised.",
+        technique="Coq proof (lexical = POSIX resolution inside the domain) + side-by-side differential with domain tracking",
+        ref="§7 C02"),
+    "C04": dict(
+        text="Coq theorems (Conc/Lin.v, axiom-free, for ANY sequential step function): threads whose calls each run one critical section "
+             "under one lock, under EVERY schedule: the calls in critical-section order replayed sequentially give exactly the observed "
+             "results and final state; that order respects each thread's program order and real-time precedence (responded before invoked "
+             "=> linearized first); a configuration with work left always has a thread that can move (no deadlock); instantiated with the "
+             "Memfs mirror's step, whose critical sections never panic (no poisoned lock). The discipline the model assumes is checked on "
+             "Gen/Locks.v, regenerated from src/sys/fs/memfs/vfs.rs on every run: every single-step operation of the statement opens exactly "
+             "one critical section on any syntactic path (handle flushes and loops counted) and no method asks for the lock while holding "
+             "a guard. Tied dynamically by real threads on one shared Memfs with yield points before every lock acquisition: every distinct "
+             "observed outcome (results, invocation/response order, final state) is checked for linearizability against the extracted model.",
+        note="Trusted: Coq kernel; tools/translators.py gen_locks (syntactic: occurrences of read_guard / write_guard / flush and calls on self, "
+             "a let-bound guard is live to the end of its block); std::sync::RwLock gives mutual exclusion and eventually grants a free lock; "
+             "hook sys::verif::guard_point; harness/src/conc.rs; ocaml/lin.ml. mkfile_m, chmod and chown are compositions and not among the "
+             "statement's single steps. Thread schedules are sampled by the stress runs; the theorem covers all of them given the discipline.",
+        technique="Coq proof (linearizability and progress of a coarse-grained lock object, invariant over schedules) + translator-checked lock discipline + linearizability checking of real thread histories",
+        ref="§7 C04"),
 }
 
 NOT_APPLICABLE = {}
@@ -264,7 +296,7 @@ def main():
         f.write("\n")
 
 
-HOOK_COMMITS = ["2ee7af3", "0db74ba"]
+HOOK_COMMITS = ["2ee7af3", "0db74ba", "2a87002"]
 
 if __name__ == "__main__":
     main()
